@@ -8,18 +8,77 @@ def gen(rng, tier):
     return [R.trie_case(rng, rng.randrange(5, 40)) for _ in range(n)]
 
 
+def subhist_case(rng):
+    """a SUB socket's history of subscribe / unsubscribe calls (duplicates, covered prefixes, the empty prefix, removals of the
+    covering subscription), half before and half after the connection exists; then probes are published"""
+    alphabet = [b"", b"a", b"ab", b"abc", b"abd", b"b", b"news", b"news/x", b"n"]
+    active = []
+    hist = []
+    for _ in range(rng.randrange(2, 9)):
+        if active and rng.random() < 0.4:
+            t = rng.choice(active + [rng.choice(alphabet)])
+            hist.append("-" + t.hex())
+            if t in active:
+                active.remove(t)
+        else:
+            t = rng.choice(alphabet + active)          # duplicates and covered topics on purpose
+            hist.append("+" + t.hex())
+            active.append(t)
+    probes = [b"a", b"ab", b"abc", b"abcd", b"abd", b"b", b"c", b"news", b"news/x/y", b"n", b"zz"]
+    return ["subhist %s %s %s" % (rng.choice(["tcp", "inproc"]), ";".join(hist), ";".join("h" + p.hex() for p in probes))]
+
+
+def subhist_oracle(case, impl):
+    """the property on the implementation's own output: a published message arrives iff some subscription that is ACTIVE at the
+    end of the history (subscriptions are counted: n subscribes need n unsubscribes) is a prefix of it"""
+    p = case[0].split(" ")
+    if not impl[0].startswith("got="):
+        return None
+    active = {}
+    for h in p[2].split(";"):
+        if not h:
+            continue
+        t = bytes.fromhex(h[1:])
+        if h[0] == "+":
+            active[t] = active.get(t, 0) + 1
+        elif active.get(t, 0) > 0:
+            active[t] -= 1
+    subs = [t for t, n in active.items() if n > 0]
+    probes = [bytes.fromhex(x.lstrip("h")) for x in p[3].split(";")]
+    want = [i for i, pr in enumerate(probes) if any(pr.startswith(t) for t in subs)]
+    got = [int(x) for x in impl[0][4:].split(",") if x]
+    if got != want:
+        missing = [probes[i].decode("latin1") for i in want if i not in got]
+        extra = [probes[i].decode("latin1") for i in got if i not in want]
+        return "key=subscription-semantics active subscriptions %s: not delivered although subscribed %s, delivered although not subscribed %s" % (
+            sorted(t.decode("latin1") for t in subs), missing, extra)
+    return None
+
+
+def gen_subhist(rng, tier):
+    fixed = [["subhist tcp +6e657773;+6e657773;-6e657773 h6e6577732f78;h6e"],            # sub news; sub news; unsub news
+             ["subhist tcp +61;+6162;-61 h6162;h616263;h61;h62"],                          # sub a; sub ab; unsub a
+             ["subhist inproc +;+616263;- h616263;h61;h7a"]]                               # sub ""; sub abc; unsub ""
+    return fixed + [subhist_case(rng) for _ in range(30 if tier == "quick" else 600)]
+
+
 def gen_stack(rng, tier):
     # a subscriber that never reads: with a large SNDHWM nothing fills up; with a small one the publisher is blocked (known finding)
     return [["pubstall 1000 %d 100000" % rng.choice([30, 60])], ["pubstall 5 60 100000"]]
 
 
 SPEC = {
-    "components": [{"comp": "stack", "gen": gen_stack, "label": "stalled-subscriber", "shrink": False,
+    "components": [{"comp": "stack", "gen": gen_subhist, "oracle": subhist_oracle, "label": "subscription-histories", "shrink": False,
+                    "nontrivial": lambda c, i: any(l.startswith("got=") and len(l) > 4 for l in i), "dist": lambda cs: {"cases": len(cs)}},
+                   {"comp": "stack", "gen": gen_stack, "label": "stalled-subscriber", "shrink": False,
                     "nontrivial": lambda c, i: any(l == "pubstall=ok" or "key=pub-blocked" in l for l in i), "dist": lambda cs: {"cases": len(cs)}},
                    {"comp": "routing", "gen": gen, "oracle": R.trie_oracle, "label": "trie",
                     "nontrivial": lambda c, i: any(l == "true" for l in i), "dist": lambda cs: {"cases": len(cs)}}],
-    "search": lambda rng, tier: [("routing", gen(rng, tier), R.trie_oracle)],
-    "rule": "stack level: a PUB with a healthy SUB and a raw subscriber that subscribes and then never reads - the publisher must not be "
+    "search": lambda rng, tier: [("routing", gen(rng, tier), R.trie_oracle), ("stack", gen_subhist(rng, "quick"), subhist_oracle, False)],
+    "rule": "stack level: a real SUB connected to a real PUB goes through a history of subscribe / unsubscribe calls (duplicates, topics "
+            "already covered by another subscription, the empty prefix, removal of the covering subscription; half of the history before "
+            "the connection exists), then probe topics are published: exactly those arrive that the model's trie - fed the same history - "
+            "matches; a PUB with a healthy SUB and a raw subscriber that subscribes and then never reads - the publisher must not be "
             "blocked and the healthy subscriber must get everything in order (blocked with a small SNDHWM: known finding); component "
             "level: random histories (5..40 ops) of subscribe/unsubscribe/matches/get_all_topics on the real SubscriptionTrie over nested, "
             "binary, empty and repeated topics; oracle = multiset-of-subscriptions reference; non-trivial = some match or removal "
